@@ -10,10 +10,18 @@
     boundary, straight into WebSocketTemporaryHandler.__call__.  The endpoint must
     receive exactly the sent (opcode, payload) sequence, once each, in order, and no
     call may raise.
+(c) A frame is a mutable record: the SAME frame object is written, some of its fields
+    are changed (opcode, mask flag + key, FIN, payload + payload_length across the
+    length-code boundaries) and it is written again.  Every write must be the RFC 6455
+    encoding of the frame as it is at that moment and must parse back to it.
+(d) An endpoint may fail in ANY of its notifications, the non-standard Open event
+    included: once the 101 response is on the wire the client sends frames, and each
+    of them has to reach the endpoint exactly once, in order.
 """
 import contextlib
 import io
 import itertools
+import logging
 import struct
 
 from mon.core.merge import merge, need
@@ -260,6 +268,7 @@ def run_codec(cfg, counters, violations, samples, distinct):
                             viol("write-raises", "writing a %s frame %s twice raised %r" % (variant, case, e), case)
                 if len(samples) < 3 and n in (126, 65535) and masked:
                     samples.append({"case": case, "wire_prefix": wire[:14].hex(), "rfc_prefix": want[:14].hex()})
+    run_modified_frames(H, r, cfg, counters, viol, distinct)
     # the convenience constructors
     for n in (0, 5, 125, 126, 200):
         for ctor, op in ((H.WebSocketFrame.Binary, 2), (H.WebSocketFrame.Ping, 9), (H.WebSocketFrame.Pong, 10)):
@@ -278,17 +287,140 @@ def run_codec(cfg, counters, violations, samples, distinct):
             viol("ctor-encode", "Text frame len %d differs from RFC" % n, {"op": 1, "length": n})
 
 
+MOD_LENGTHS = [0, 1, 5, 124, 125, 126, 127, 128, 300, 1000]
+MOD_FIELDS = ["opcode", "mask", "payload", "fin"]
+
+
+def _apply_state(H, f, st):
+    f.flags.fin = st["fin"]
+    f.flags.opcode = getattr(H.WebSocketOpCode, st["opcode"])
+    f.payload = st["payload"]
+    f.payload_length = len(st["payload"])
+    f.flags.mask = 1 if st["key"] is not None else 0
+    if st["key"] is not None:
+        f.masking_key = st["key"]
+
+
+def run_modified_frames(H, r, cfg, counters, viol, distinct):
+    """(c) one frame OBJECT, written, modified, written again (2-4 writes).  The oracle is the one of (a): the bytes of every write
+    are the reference encoding of the frame's fields at the time of that write, and the library's reader gives those fields
+    back.  A fresh frame object with the same fields is the control that tells 'the codec is wrong for this frame' from 'the
+    codec is wrong for a frame that was written before'."""
+    opnames = list(OPS)
+    for rep in range(160 if cfg["tier"] == "quick" else 320):
+        def new_len():
+            x = r.random()
+            if x < 0.04:
+                return r.choice([65535, 65536, 65537])
+            if x < 0.7:
+                return r.choice(MOD_LENGTHS)
+            return r.randrange(0, 300)
+        st = {"fin": 1, "opcode": r.choice(opnames), "key": r.choice([None, r.randbytes(4)]),
+              "payload": payload_of(r, new_len(), r.choice(["text", "random", "ff"]))}
+        f = H.WebSocketFrame()
+        same_writer = r.random() < 0.5
+        sock = RecSock()
+        writer = H.writeFrameFactory(sock)
+        history = []
+        for step in range(r.randint(2, 4)):
+            if step:
+                changed = r.sample(MOD_FIELDS, r.choice([1, 1, 2, 3, 4]))
+                st = dict(st)
+                if "opcode" in changed:
+                    st["opcode"] = r.choice([o for o in opnames if o != st["opcode"]])
+                if "mask" in changed:
+                    # unmasked -> masked, masked -> unmasked, or another key
+                    st["key"] = r.choice([None, r.randbytes(4)]) if st["key"] is not None else r.randbytes(4)
+                if "payload" in changed:
+                    n0 = len(st["payload"])
+                    n1 = r.choice([n0, n0 + 1, max(0, n0 - 1), new_len(), new_len()])
+                    st["payload"] = payload_of(r, n1, "random")
+                if "fin" in changed:
+                    st["fin"] = 1 - st["fin"]
+            else:
+                changed = []
+            _apply_state(H, f, st)
+            case = {"write": step + 1, "changed": changed, "opcode": st["opcode"], "length": len(st["payload"]), "fin": st["fin"],
+                    "masked": st["key"] is not None, "key": st["key"].hex() if st["key"] else None,
+                    "earlier_writes": list(history)}
+            if not same_writer:
+                sock = RecSock()
+                writer = H.writeFrameFactory(sock)
+            del sock.out[:]
+            try:
+                writer(f)
+            except Exception as e:
+                viol("write-raises", "writing a frame for the %d. time (%s) raised %r" % (step + 1, case, e), case)
+                break
+            wire = b"".join(sock.out)
+            want = ref_encode(OPS[st["opcode"]], st["payload"], st["key"], fin=st["fin"])
+            counters.inc("frame_object_writes")
+            if step:
+                counters.inc("modified_frames_rewritten")
+                for c_ in changed:
+                    counters.inc("modified_field:" + c_)
+                if history[-1]["length_code"] != _length_code(len(st["payload"])):
+                    counters.inc("modified_frames_crossing_a_length_code")
+            distinct.add(h64("mod", step, st["opcode"], len(st["payload"]), st["key"] is not None, tuple(changed)))
+            ok = wire == want
+            back = None
+            try:
+                rs = RecSock(wire)
+                g = H.readFrameFactory(rs)()
+                back = (g.flags.opcode.value, g.payload_length, bytes(g.payload), g.flags.fin, g.flags.mask, len(rs.buf))
+            except Exception as e:
+                back = repr(e)
+            exp_back = (OPS[st["opcode"]], len(st["payload"]), st["payload"], st["fin"], 1 if st["key"] is not None else 0, 0)
+            if not ok or back != exp_back:
+                # control: a fresh object with the same fields
+                f0 = H.WebSocketFrame()
+                _apply_state(H, f0, st)
+                s0 = RecSock()
+                try:
+                    H.writeFrameFactory(s0)(f0)
+                    fresh_ok = b"".join(s0.out) == want
+                except Exception:
+                    fresh_ok = False
+                hl = len(want) - len(st["payload"])
+                if step and fresh_ok:
+                    stale = bool(history) and wire[:len(history[-1]["header"]) // 2] == bytes.fromhex(history[-1]["header"])
+                    mech = "modified-frame-rewritten-with-stale-header" if stale and wire[:hl] != want[:hl] else "modified-frame-encoding-differs"
+                    viol(mech, "one frame object, write %d after changing %r: library wrote %s, RFC 6455 encoding of the frame as it is now is %s; "
+                               "a fresh frame with the same fields is encoded correctly; read back: %s" % (
+                                   step + 1, changed, short(wire[:14]), short(want[:14]),
+                                   back if isinstance(back, str) else "opcode=%r length=%r fin=%r mask=%r leftover=%r" % (back[0], back[1], back[3], back[4], back[5])), case)
+                else:
+                    detail = "header" if wire[:hl] != want[:hl] else "payload"
+                    viol(classify_codec(len(st["payload"]), st["key"] is not None, "write" if not ok else "read", detail),
+                         "frame %s: library wrote %s, RFC 6455 says %s; read back %s" % (case, short(wire[:14]), short(want[:14]), short(repr(back))), case)
+                break
+            history.append({"opcode": st["opcode"], "length": len(st["payload"]), "masked": st["key"] is not None, "fin": st["fin"],
+                            "length_code": _length_code(len(st["payload"])), "header": want[:len(want) - len(st["payload"])].hex()})
+
+
+def _length_code(n):
+    return n if n <= 125 else (126 if n <= 0xFFFF else 127)
+
+
 # ------------------------------------------------------------------ segmentation
+
+class NotUpgraded(Exception):
+    """the server did not answer the upgrade request with 101: no client would send frames"""
+
 
 class Endpoint(object):
     def __init__(self):
         self.events = []
         self.by_handler = {}
+        self.fail_open = False
 
     def callback(self, handler, opcode, payload):
         ev = (opcode.value, payload if payload is None or isinstance(payload, str) else bytes(payload))
         self.events.append(ev)
         self.by_handler.setdefault(id(handler), []).append(ev)
+        # an endpoint may fail in any of its notifications - the Open event included (the library logs that and carries on)
+        if opcode.value == 0xFF and self.fail_open:
+            raise RuntimeError("seeded failure in the endpoint callback (Open event)")
         # an endpoint that acts on what it hears: it answers, or closes its side while the client is still sending
         if isinstance(payload, str) and payload.startswith("!raise"):
             raise RuntimeError("seeded failure in the endpoint callback")
@@ -298,7 +430,7 @@ class Endpoint(object):
             handler.close()
 
 
-def make_channel(router_holder):
+def make_channel(router_holder, fail_open=False):
     from twisted.internet.testing import StringTransport
     from mpgameserver import http_server as H
 
@@ -320,8 +452,16 @@ def make_channel(router_holder):
     proto.makeConnection(tr)
     req = (b"GET /ws HTTP/1.1\r\nHost: x\r\nUpgrade: websocket\r\nConnection: Upgrade\r\n"
            b"Sec-WebSocket-Key: dGhlIHNhbXBsZSBub25jZQ==\r\nSec-WebSocket-Version: 13\r\n\r\n")
-    with contextlib.redirect_stdout(io.StringIO()):
-        proto.dataReceived(req)
+    ep.fail_open = fail_open
+    if fail_open:
+        logging.disable(logging.CRITICAL)   # (the library logs the failure of the Open notification with a traceback)
+    try:
+        with contextlib.redirect_stdout(io.StringIO()):
+            proto.dataReceived(req)
+    finally:
+        ep.fail_open = False
+        if fail_open:
+            logging.disable(logging.NOTSET)
     return proto, tr, ep
 
 
@@ -458,10 +598,13 @@ def frame_offsets(frames):
     return sorted({o for o in offs if 0 < o < pos})
 
 
-def feed(boundary, holder, frames, chunks):
+def feed(boundary, holder, frames, chunks, fail_open=False):
     """returns (events or None, error)"""
     if boundary == "channel":
-        proto, tr, ep = make_channel(holder)
+        proto, tr, ep = make_channel(holder, fail_open)
+        if fail_open and not tr.value().startswith(b"HTTP/1.1 101"):
+            close_channel(proto)
+            return [], NotUpgraded()
         base = 1   # the Open event
         err = None
         raising = any(op == "Text" and p.startswith(b"!raise") for op, p, k in frames)
@@ -640,6 +783,50 @@ def run_seg(cfg, counters, violations, samples, distinct):
                 violations.append({"mechanism": mech, "case": {"boundary": boundary, "position": pos, "unmasked_payload_bytes": len(bad_payload), "chunk_lengths": [len(c_) for c_ in chunks]},
                                    "msg": "[%s] an unmasked %d-byte Binary frame at position %d of %d frames (%d reads): endpoint got %d events %r, expected the %d frames behind and before it; errors %r" % (
                                        boundary, len(bad_payload), pos, len(good) + 1, len(chunks), len(ev), [(o_, short(p_)) for o_, p_ in ev][:6], len(want_refused), errs[:2])})
+    # ---- (d) the endpoint FAILS in its Open notification (a lookup in its own bookkeeping, say); the library logs that, the 101
+    #      response is on the wire, the client knows nothing and sends its frames in later reads: each of them is delivered exactly
+    #      once, in order.  The same stream with the same cuts on a connection whose Open notification succeeded is the control
+    #      that separates this from a plain segmentation failure.
+    for rep in range(max(8, cfg["n"] // 20)):
+        frames = gen_frames(r)
+        stream = b"".join(ref_encode(OPS[op], p, k) for op, p, k in frames)
+        L = len(stream)
+        mode = r.choice(["one-read", "frame-per-read", "random", "random"])
+        if mode == "one-read" or L < 2:
+            chunks = [stream]
+        elif mode == "frame-per-read":
+            chunks = [ref_encode(OPS[op], p, k) for op, p, k in frames]
+        else:
+            chunks = cut(stream, sorted(r.sample(range(1, L), min(L - 1, r.randint(1, 12)))))
+        want = expected_events(frames)
+        events, err = feed("channel", holder, frames, chunks, fail_open=True)
+        if isinstance(err, NotUpgraded):
+            counters.inc("upgrade_refused_when_open_callback_raised")
+            continue
+        counters.inc("connections_whose_open_callback_raised")
+        counters.inc("streams_fed")
+        counters.inc("streams_fed_channel")
+        counters.inc("frames_sent", len(frames))
+        distinct.add(h64("open-raised", stream, tuple(len(c) for c in chunks)))
+        if err is None and events == want:
+            counters.inc("frames_delivered_in_order", len(frames))
+            counters.inc("frames_delivered_after_open_callback_raised", len(frames))
+            continue
+        c_events, c_err = feed("channel", holder, frames, chunks)
+        if c_err is None and c_events == want:
+            mech = "frames-lost-after-open-callback-raised" if len(events) < len(want) else "frames-misdelivered-after-open-callback-raised"
+        else:
+            mech = classify_seg(frames, chunks, events, want, err)
+        counters.inc("viol:" + mech)
+        if sum(1 for v in violations if v["mechanism"] == mech) < 5:
+            violations.append({"mechanism": mech,
+                               "case": {"boundary": "channel", "open_callback": "raises", "chunk_lengths": [len(c) for c in chunks][:60],
+                                        "frames": [(op, p.hex() if len(p) < 40 else "%d bytes" % len(p), k.hex()) for op, p, k in frames]},
+                               "msg": "the endpoint raised in its Open notification, the server answered 101; the client then sent %d frames in %d reads %r; "
+                                      "endpoint got %d of them%s; error=%r (the same reads on a connection whose Open notification succeeded: %s)" % (
+                                          len(frames), len(chunks), [len(c) for c in chunks][:12], len(events),
+                                          "" if len(events) > 6 else " " + repr([(o, short(p)) for o, p in events]), err,
+                                          "all delivered" if c_err is None and c_events == want else "also wrong")})
     for case in range(cfg["n"]):
         if case % 10 == 0:
             run_concurrent(r, holder, counters, violations)
@@ -692,7 +879,9 @@ def finish(tier, seed, results):
     inconclusive = []
     need(m["counters"], ["frames_written", "frames_read", "roundtrips", "streams_fed_channel", "streams_fed_direct",
                          "control_ok", "exhaustive_cut_sets", "frames_delivered_in_order", "concurrent_connections", "long_lived_connections",
-                         "header_parts_checked", "frames_written_twice", "flag_combinations_checked"], inconclusive)
+                         "header_parts_checked", "frames_written_twice", "flag_combinations_checked",
+                         "modified_frames_rewritten", "modified_frames_crossing_a_length_code",
+                         "connections_whose_open_callback_raised"], inconclusive)
     if m["counters"].get("control_ok", 0) != m["counters"].get("control_streams", -1):
         inconclusive.append("positive control failed: frame-aligned single-frame reads were not all delivered "
                             "(%s of %s) - the harness cannot attach" % (m["counters"].get("control_ok"), m["counters"].get("control_streams")))
@@ -705,7 +894,10 @@ def finish(tier, seed, results):
                 "(opcode, length, masked). segmentation: one evaluation = one stream of 1-7 reference-encoded masked client frames "
                 "cut into reads (one read, byte-wise, whole-frame pairs, cuts at header/extended-length/mask/payload offsets, "
                 "random) fed through the real HTTP channel after an upgrade, or straight into the handler; for streams of <=13 "
-                "bytes ALL cut sets are enumerated; distinct = distinct (stream, cut set)" % (BOUNDARIES,),
+                "bytes ALL cut sets are enumerated; distinct = distinct (stream, cut set). Also: one frame OBJECT written, modified "
+                "(opcode / mask flag + key / FIN / payload + length across the length codes) and written again, every write compared "
+                "with the reference encoding of the frame as it is then; connections whose endpoint raised in its Open "
+                "notification (101 sent), whose client frames must still all be delivered" % (BOUNDARIES,),
         "exhaustive": tier == "thorough",
         "exhaustive_scope": "payload lengths 0..70000 unmasked (thorough); all cut sets of the short streams",
         "samples": m["samples"],
